@@ -57,9 +57,34 @@ def compression_only_attrs(cls, meth='update'):
     return out
 
 
+def _initial_tests(f):
+    """`self.A == <the value the constructor gives A>` says "nothing has happened yet", whatever sentinel the class uses (the two partners of a
+    dual pair start a *time* attribute at -inf and at +inf): both spellings become `__initial__('A')` (on a copy)"""
+    import copy
+    init = f.owner.methods.get('__init__') if f.owner is not None else None
+    if init is None or f.name == '__init__':
+        return f.node
+    vals = {}
+    for st in init.node.body:
+        if isinstance(st, ast.Assign) and len(st.targets) == 1 and isinstance(st.targets[0], ast.Attribute) and isinstance(st.targets[0].value, ast.Name) and st.targets[0].value.id == 'self':
+            vals[st.targets[0].attr] = ast.dump(st.value)
+
+    class T(ast.NodeTransformer):
+        def visit_Compare(self, n):
+            self.generic_visit(n)
+            if len(n.ops) == 1 and isinstance(n.ops[0], ast.Eq):
+                for x, y in ((n.left, n.comparators[0]), (n.comparators[0], n.left)):
+                    if isinstance(x, ast.Attribute) and isinstance(x.value, ast.Name) and x.value.id == 'self' and vals.get(x.attr) == ast.dump(y) and 'inf' in ast.unparse(y):
+                        return ast.copy_location(ast.Call(func=ast.Name(id='__initial__', ctx=ast.Load()), args=[ast.Constant(value=x.attr)], keywords=[]), n)
+            return n
+    node = T().visit(copy.deepcopy(f.node))
+    ast.fix_missing_locations(node)
+    return node
+
+
 def compare_functions(rep, rule, fa, fb, slot, dual=True, drop_a=(), drop_b=(), sort_init=False, what='dual image'):
-    da, ta, _ = norm.normal_form(fa.node, dual=dual, drop_self_attrs=drop_a, sort_init=sort_init)
-    db, tb, _ = norm.normal_form(fb.node, dual=False, drop_self_attrs=drop_b, sort_init=sort_init)
+    da, ta, _ = norm.normal_form(_initial_tests(fa), dual=dual, drop_self_attrs=drop_a, sort_init=sort_init)
+    db, tb, _ = norm.normal_form(_initial_tests(fb), dual=False, drop_self_attrs=drop_b, sort_init=sort_init)
     rep.analysed(fa)
     rep.analysed(fb)
     rep.unit(fa.module.rel)
